@@ -42,6 +42,11 @@ RULE = ("random small screens (1-7 plates, arity 1-3, 1-2 samples, few names/dos
         "policy; for the last chunk count of every case with a batch also STALE score files (scored for a prefix of the batch, so they list plates "
         "that are in the batch now) through select_next_plate and its CLI; one wide screen with 300 plates (thorough: 150, 300, 600; ids beyond a signed / unsigned byte, "
         "ties at -inf on large ids); thorough adds the exhaustive (observed?, in batch?) assignment of every plate for fixed screens with <=6 plates. "
+        "Hardening classes generated in every run (counters class.*): crafted cases (packed-key radix neighbours (s,k,max)/(s,k+1,control) and "
+        "(s,max,x)/(s+1,control,x) in candidate U batch, plate id 0 the strict minimum with score 0.0, plate 0 in the batch, batch of 3), one scorer / policy "
+        "object reused for all calls and screens vs fresh ones, screen / batch list / holder snapshotted around every call, subsets handed to the scorer "
+        "re-read after later calls, holder attributes compared by introspection after save/load, np.int64 batch ids, names >= 25 chars, supplied mappings "
+        "with id gaps, an empty chunk file first, a plate with 70 wells, and 12 cases repeated in a second interpreter with another PYTHONHASHSEED. "
         "Non-trivial: >=2 candidates, n_chunks>=2, and either a batch that conditions the plates or >=2 allowed plates with a tie or -inf.")
 
 SCORE_POOL = [float("-inf"), 0.0, 0.0, 0.5, -2.0, 1.0, 3.25, -2.0, 1e300, 1e-3]
@@ -80,9 +85,12 @@ def make_plugins():
         """returns the prescribed score for every plate it is given (nothing for plates missing from the table)"""
         table = {}
         log = []
+        refs = []
 
         def score(self, plates, distance_matrix, samples, rng, progress_bar):
             VerifTableScorer.log.append([(int(k), np.asarray(v.selection_vector).copy(), type(v).__name__) for k, v in plates.items()])
+            VerifTableScorer.refs.append([(int(k), v, np.asarray(v.selection_vector).copy()) for k, v in plates.items()])
+            self.calls = getattr(self, "calls", 0) + 1
             return {k: VerifTableScorer.table[int(k)] for k in plates.keys() if int(k) in VerifTableScorer.table}
 
     class VerifAllowedPolicy(PlatePolicy):
@@ -119,6 +127,39 @@ def quiet_logging():
     lg.setLevel(logging.ERROR)
 
 
+# ------------------------------------------------------------------ hardening helpers
+SHARED = {}
+
+
+def shared(name, mk):
+    """ONE object per kind for the whole run (object reuse across chunks, chunk counts, batches and screens)"""
+    if name not in SHARED:
+        SHARED[name] = mk()
+    return SHARED[name]
+
+
+def snap_screen(scr):
+    out = {}
+    for name in ("observations", "observation_mask", "treatment_ids", "sample_ids", "plate_ids", "treatment_names", "treatment_doses",
+                 "sample_names", "plate_names"):
+        a = np.asarray(getattr(scr, name))
+        out[name] = (str(a.dtype), a.shape, np.ascontiguousarray(a).tobytes())
+    return out
+
+
+def holder_state(h):
+    """every attribute of a holder, by introspection (arrays with dtype, shape and bytes)"""
+    out = {}
+    for k, v in sorted(vars(h).items()):
+        if isinstance(v, np.ndarray):
+            out[k] = ("ndarray", str(v.dtype), v.shape, np.ascontiguousarray(v).tobytes().hex())
+        elif isinstance(v, (np.generic, int, float)):
+            out[k] = ("scalar", repr(float(v)) if not float(v).is_integer() else repr(int(v)))
+        else:
+            out[k] = (type(v).__name__, repr(v))
+    return out
+
+
 # ------------------------------------------------------------------ independent expectations
 def facts(scr):
     pids = [int(x) for x in scr.plate_ids]
@@ -148,6 +189,14 @@ def gen_case(rng, max_plates=7, n_max=16):
     if raw["mask"] is not None:
         st = {p: rng.random() < 0.3 for p in sorted(set(raw["pnames"]))}
         raw["mask"] = [st[p] for p in raw["pnames"]]
+    if rng.random() < 0.2:          # names longer than any fixed-width buffer
+        raw["pnames"] = [p_ + "_a_plate_name_longer_than_25_characters" for p_ in raw["pnames"]]
+        raw["snames"] = [s_ + "_a_sample_name_longer_than_25_chars" for s_ in raw["snames"]]
+    if rng.random() < 0.3 and raw["snames"]:
+        # ids that are not positions: mappings of a superset of the data (gaps in sample / treatment ids)
+        tm, sm = S.superset_mappings(rng, dict(raw, obs=None, mask=None))
+        raw["tmap"] = ([str(x) for x in tm[0]], [float(x) for x in tm[1]], [int(x) for x in tm[2]])
+        raw["smap"] = ([str(x) for x in sm[0]], [int(x) for x in sm[1]])
     # mask flavour: mostly random per plate, sometimes all unobserved / all observed / no observations at all
     r = rng.random()
     if r < 0.12:
@@ -166,7 +215,7 @@ def gen_batch(rng, plates):
     r = rng.random()
     if r < 0.3:
         return []
-    k = rng.randint(1, max(1, min(2, len(plates))))
+    k = rng.randint(1, max(1, min(3, len(plates))))
     b = rng.sample(plates, min(k, len(plates)))
     if rng.random() < 0.1:
         b.append(max(plates) + 5)           # unknown id
@@ -310,17 +359,33 @@ def run_case(ctx, res, env, case, lines, expect, meta, light=False):
     orng = ctx.subrng("c06-orders", case["seed"])
     batch_hits = any(p in batch for p in plates)
 
+    reuse = case["seed"] % 2 == 1
+    np64 = case["seed"] % 4 == 2
+    if reuse:
+        res.count("class.object-reuse.scorer-policy")
+    if np64 and batch:
+        res.count("class.dtype.np-int64-batch-ids")
+
     def bp():
         # `batch_plate_ids=None` is the documented default of both functions: used for half of the empty batches
-        return None if (not batch and case["seed"] % 2 == 1) else list(batch)
+        if not batch and case["seed"] % 2 == 1:
+            return None
+        return [np.int64(b) for b in batch] if np64 else list(batch)
+    snap0 = snap_screen(scr)
+    Scorer.refs = []
     for n in case["ns"]:
         holders, files, handed_all, failed = [], [], [], None
         sizes = []
         for idx in range(n):
             Scorer.log = []
             try:
-                h = score_chunk(scorer=Scorer(), thetas=None, screen=scr, distance_matrix=None, rng=np.random.default_rng(0),
-                                n_chunks=n, chunk_index=idx, batch_plate_ids=bp())
+                given = bp()
+                given0 = None if given is None else list(given)
+                h = score_chunk(scorer=(shared("table", Scorer) if reuse else Scorer()), thetas=None, screen=scr, distance_matrix=None,
+                                rng=np.random.default_rng(0), n_chunks=n, chunk_index=idx, batch_plate_ids=given)
+                if given != given0:
+                    res.fail("score_chunk changed the batch list it was given", dict(case, n=n, idx=idx), str(given), str(given0),
+                             signature="C06:input-mutated")
                 handed = Scorer.log[-1]
                 out = "ok " + S.lst(("%d:%s" % (k, S.sel_tok(sel)) for k, sel, _ in handed), ";")
             except Exception as e:   # noqa: BLE001
@@ -345,6 +410,11 @@ def run_case(ctx, res, env, case, lines, expect, meta, light=False):
             h2 = ChunkedScoresHolder.load_h5(fn)
             if show_holder(h2) != show_holder(h):
                 res.fail("save_h5/load_h5 changed a scores holder", dict(case, n=n, idx=idx), show_holder(h2), show_holder(h), signature="C06:saveload")
+            elif holder_state(h2) != holder_state(h):
+                # attribute completeness: every attribute found by introspection, with dtype and shape
+                d_ = [k for k in set(holder_state(h)) | set(holder_state(h2)) if holder_state(h).get(k) != holder_state(h2).get(k)]
+                res.fail("save_h5/load_h5 changed an attribute of a scores holder", dict(case, n=n, idx=idx),
+                         {k: str(holder_state(h2).get(k))[:120] for k in d_}, {k: str(holder_state(h).get(k))[:120] for k in d_}, signature="C06:saveload")
             holders.append(h2)
             files.append(fn)
         if failed is not None:
@@ -369,6 +439,9 @@ def run_case(ctx, res, env, case, lines, expect, meta, light=False):
             orders = list(itertools.permutations(range(n)))
         else:
             orders = [tuple(range(n))]
+            if n > len(cands):
+                orders.append(tuple(reversed(range(n))))        # trailing chunks are empty: an EMPTY chunk file comes first
+                res.count("class.falsy.empty-chunk-file-first")
             for _ in range(case.get("n_orders", 2)):
                 o = list(range(n))
                 orng.shuffle(o)
@@ -397,8 +470,15 @@ def run_case(ctx, res, env, case, lines, expect, meta, light=False):
                             res.fail("combined holder is not the multiset of (candidate, score)", dict(case, n=n, order=list(order)),
                                      [(a, enc_score(b)) for a, b in got], [(a, enc_score(b)) for a, b in want], signature="C06:concat-multiset")
                     try:
-                        sel = select_next_plate(scores=comb, screen=scr, policy=(Policy() if pol is not None else None),
-                                                batch_plate_ids=bp(), rng=np.random.default_rng(0))
+                        before = holder_state(comb)
+                        given = bp()
+                        given0 = None if given is None else list(given)
+                        sel = select_next_plate(scores=comb, screen=scr,
+                                                policy=((shared("policy", Policy) if reuse else Policy()) if pol is not None else None),
+                                                batch_plate_ids=given, rng=np.random.default_rng(0))
+                        if holder_state(comb) != before or given != given0:
+                            res.fail("select_next_plate changed the scores holder / batch list it was given", dict(case, n=n, order=list(order), policy=pol),
+                                     "changed", "unchanged", signature="C06:input-mutated")
                         got_id = None if sel is None else int(sel.plate_id)
                         stext = "ok " + ("-1" if got_id is None else str(got_id))
                         if total:
@@ -423,6 +503,19 @@ def run_case(ctx, res, env, case, lines, expect, meta, light=False):
         # ---- the command line path (same model line: the model's pipeline *is* the CLI composition)
         if use_cli:
             run_cli(ctx, res, env, case, scr, raw, batch, table, total, allowed, n, orders[-1], lines, expect, meta, ttok, rtok)
+    # ---- input mutation / aliasing: the screen is untouched; every subset handed to the scorer earlier still selects what it selected then
+    res.count("class.input-mutation.screen-batch-holder")
+    if snap_screen(scr) != snap0:
+        now = snap_screen(scr)
+        res.fail("scoring / selection wrote into the screen", dict(case), [k for k in snap0 if snap0[k] != now[k]], "screen unchanged",
+                 signature="C06:input-mutated")
+    for call in Scorer.refs:
+        for k, obj, selcopy in call:
+            if not np.array_equal(np.asarray(obj.selection_vector), selcopy):
+                res.fail("a subset handed to the scorer was changed by a later call (shared storage)", dict(case), {"plate": k}, "unchanged",
+                         signature="C06:aliasing")
+                break
+    Scorer.refs = []
     # ---- requests outside the quantifier that the model also describes: n_chunks = 0 (numpy: ValueError), chunk_index = n_chunks (IndexError)
     if case.get("edges", False):
         n = case["ns"][-1]
@@ -448,12 +541,12 @@ def run_case(ctx, res, env, case, lines, expect, meta, light=False):
                                 n_chunks=n, chunk_index=idx, batch_plate_ids=list(batch))
                     handed = Scorer.log[-1]
                     if kind == "S":
-                        h = score_chunk(scorer=SizeScorer(), thetas=None, screen=scr, distance_matrix=None, rng=np.random.default_rng(5),
+                        h = score_chunk(scorer=(shared("size", SizeScorer) if reuse else SizeScorer()), thetas=None, screen=scr, distance_matrix=None, rng=np.random.default_rng(5),
                                         n_chunks=n, chunk_index=idx, batch_plate_ids=list(batch))
                         want = [(k, float(sum(1 for x in sel if x))) for k, sel, _ in handed]
                         tok = "S"
                     else:
-                        h = score_chunk(scorer=RandomScorer(), thetas=None, screen=scr, distance_matrix=None, rng=np.random.default_rng(5),
+                        h = score_chunk(scorer=(shared("random", RandomScorer) if reuse else RandomScorer()), thetas=None, screen=scr, distance_matrix=None, rng=np.random.default_rng(5),
                                         n_chunks=n, chunk_index=idx, batch_plate_ids=list(batch))
                         g = np.random.default_rng(5)
                         draws = [float(g.random()) for _ in handed]
@@ -636,6 +729,42 @@ def make_case(rng, raw, seed, tier, exhaustive_orders, cli_p, batch=None):
             "ns": ns, "all_orders_upto": exhaustive_orders, "n_orders": 2, "cli": rng.random() < cli_p, "shipped": rng.random() < 0.5, "seed": seed, "stale": True, "edges": seed % 8 == 0}
 
 
+def crafted_cases():
+    """fixed cases generated in EVERY run (falsy boundaries; neighbouring keys of a packed mixed-radix encoding of (sample, t1, t2))"""
+    out = []
+
+    def mk(rows, maskp, batch, table, allowed, ns, name):
+        # rows: (plate, sample, (n1, d1), (n2, d2))
+        raw = dict(ctrl="control", arity=2, tnames=[[r[2][0], r[3][0]] for r in rows], tdoses=[[r[2][1], r[3][1]] for r in rows],
+                   snames=[r[1] for r in rows], pnames=[r[0] for r in rows], obs=[0.5] * len(rows), mask=[maskp[r[0]] for r in rows],
+                   tmap=None, smap=None)
+        return name, {"raw": raw, "batch": batch, "table": {str(k): enc_score(v) for k, v in table.items()}, "total": True, "allowed": allowed,
+                      "ns": ns, "all_orders_upto": 3, "n_orders": 1, "cli": True, "shipped": True, "seed": 7000 + len(out), "stale": True, "edges": False}
+    C = ("control", 0.0)
+    a, b, c, d = ("a", 1.0), ("b", 1.0), ("c", 1.0), ("d", 1.0)        # treatment ids 0..3, control -1; samples s0, s1 -> 0, 1
+    # --- radix neighbours: with R = (max id + 1) instead of (max id + 2), (s, k, max) packs like (s, k+1, control) and
+    #     (s, max, x) like (s+1, control, x).  Candidates p1, p2; batch plate p3 (and p0 observed).
+    rows = [("p0", "s0", a, C), ("p0", "s1", C, b),
+            ("p1", "s0", a, d), ("p1", "s0", d, a), ("p1", "s0", c, d),
+            ("p2", "s0", b, d), ("p2", "s1", a, b),
+            ("p3", "s0", b, C), ("p3", "s1", C, a), ("p3", "s0", d, C), ("p3", "s0", c, C), ("p3", "s1", C, b)]
+    maskp = {"p0": True, "p1": False, "p2": False, "p3": False}
+    out.append(mk(rows, maskp, [3], {0: 1.0, 1: 0.5, 2: 0.5, 3: -2.0}, None, [1, 2, 3], "radix-neighbours"))
+    # the same with the batch plate FIRST in row order and the rows interleaved (kept representative = first of the union)
+    rows2 = [rows[7], rows[2], rows[8], rows[3], rows[0], rows[9], rows[4], rows[10], rows[5], rows[1], rows[11], rows[6]]
+    out.append(mk(rows2, maskp, [3], {0: 1.0, 1: 0.5, 2: 0.5, 3: -2.0}, [1, 2], [1, 2, 4], "radix-neighbours"))
+    # batch of three plates, one candidate
+    maskq = {"p0": False, "p1": False, "p2": False, "p3": False}
+    out.append(mk(rows, maskq, [0, 2, 3], {0: 0.0, 1: 3.25, 2: -2.0, 3: -2.0}, None, [1, 2, 3], "batch-of-3"))
+    # --- falsy: plate id 0 is the strict minimum with score 0.0 (zero-filled cells look the same), batch of size 1, n = 1
+    rows3 = [("p0", "s0", a, b), ("p1", "s0", a, c), ("p2", "s0", b, c), ("p3", "s0", C, c)]
+    out.append(mk(rows3, {"p0": False, "p1": False, "p2": False, "p3": False}, [3], {0: 0.0, 1: 0.5, 2: 1.0, 3: -2.0}, None, [1, 2, 5], "plate0-minimum"))
+    out.append(mk(rows3, {"p0": False, "p1": False, "p2": False, "p3": False}, [], {0: -2.0, 1: 0.0, 2: 1.0, 3: 0.5}, [0, 1], [1, 4, 6], "plate0-minimum"))
+    # plate 0 is the batch; plate 1 has score 0.0 and is the minimum
+    out.append(mk(rows3, {"p0": False, "p1": False, "p2": False, "p3": True}, [0], {0: -2.0, 1: 0.0, 2: 1.0, 3: -2.0}, None, [1, 2, 3], "plate0-in-batch"))
+    return out
+
+
 def describe(res, case, cands):
     raw = case["raw"]
     res.count("plates.%d" % len(set(raw["pnames"])))
@@ -643,6 +772,41 @@ def describe(res, case, cands):
     res.count("batch.%s" % ("empty" if not case["batch"] else "nonempty"))
     res.count("policy.%s" % ("none" if case["allowed"] is None else "filter"))
     res.count("scorer.%s" % ("total" if case.get("total", True) else "partial"))
+    pn = raw["pnames"]
+    runs = sum(1 for i in range(len(pn)) if i == 0 or pn[i] != pn[i - 1])
+    if runs > len(set(pn)):
+        res.count("class.rows.plates-interleaved")
+    first_seen = list(dict.fromkeys(pn))
+    if first_seen != sorted(first_seen):
+        res.count("class.rows.plates-not-in-id-order")
+    if raw.get("tmap") is not None:
+        res.count("class.ids.supplied-mappings-with-gaps")
+    if not any(n_ == raw["ctrl"] or d_ <= 0 for r_, rd_ in zip(raw["tnames"], raw["tdoses"]) for n_, d_ in zip(r_, rd_)):
+        res.count("class.ids.screen-without-control")
+    if any(n_ == raw["ctrl"] and d_ > 0 for r_, rd_ in zip(raw["tnames"], raw["tdoses"]) for n_, d_ in zip(r_, rd_)):
+        res.count("class.ids.named-control-positive-dose")
+    if any(len(x) >= 25 for x in pn):
+        res.count("class.dtype.names>=25chars")
+    if len(case["batch"]) == 1:
+        res.count("class.falsy.batch-size-1")
+    if len(case["batch"]) >= 3:
+        res.count("class.size.batch>=3")
+    if 0 in case["batch"]:
+        res.count("class.falsy.plate-id-0-in-batch")
+    if max(case["ns"]) > len(cands):
+        res.count("class.size.more-chunks-than-plates")
+    if len(set(pn)) >= 11:
+        res.count("class.size.>=11-plates")
+    tb = {int(k): dec_score(v) for k, v in case["table"].items()}
+    allow = [p_ for p_ in cands if case["allowed"] is None or p_ in case["allowed"]]
+    if case.get("total", True) and 0 in allow and len(allow) >= 2 and all(tb[0] < tb[p_] for p_ in allow if p_ != 0):
+        res.count("class.falsy.plate-id-0-is-the-strict-minimum")
+    if case.get("total", True) and len(allow) >= 2 and min(tb[p_] for p_ in allow) == 0.0:
+        res.count("class.falsy.minimal-score-0.0")
+    with np.errstate(all="ignore"):
+        unrep = any(v not in ("ninf",) and float(np.float32(dec_score(v))) != dec_score(v) for v in case["table"].values())
+    if unrep:
+        res.count("class.dtype.float32-unrepresentable-score")
     vals = [case["table"][k] for k in case["table"]]
     tie = len(set(vals)) < len(vals) or "ninf" in vals
     if len(cands) >= 2 and max(case["ns"]) >= 2 and (case["batch"] or tie):
@@ -664,6 +828,14 @@ def run(ctx, res):
                 lines.append("split %d %d" % (ln, n))
                 expect.append("ok " + S.lst(str(len(p)) for p in parts) + (" flat" if flat == list(range(ln)) else " NOTFLAT"))
                 meta.append(("split", {"len": ln, "n": n}))
+        xp_cases = [c_ for _, c_ in crafted_cases()][:3]
+        # ---- crafted cases, every run
+        for name, case in crafted_cases():
+            cands = run_case(ctx, res, env, case, lines, expect, meta)
+            res.count("class.crafted." + name)
+            if name == "radix-neighbours":
+                res.count("class.size.packed-key-radix-neighbours")
+            describe(res, case, cands)
         # ---- random cases
         rng = ctx.subrng("c06")
         n_cases = ctx.scale(260, 1300, 800)
@@ -673,6 +845,8 @@ def run(ctx, res):
                              0.12 if ctx.tier == "quick" else 0.04)
             cands = run_case(ctx, res, env, case, lines, expect, meta)
             describe(res, case, cands)
+            if len(xp_cases) < 12 and case["batch"] and len(cands) >= 2 and case.get("total", True):
+                xp_cases.append(dict(case, ns=case["ns"][:3]))
             if t % 40 == 0:
                 res.sample({"batch": case["batch"], "allowed": case["allowed"], "table": case["table"], "ns": case["ns"],
                             "plate_names": raw["pnames"], "mask": raw["mask"], "candidates": cands})
@@ -689,7 +863,15 @@ def run(ctx, res):
                     td.append([wrng.choice([1.0, 2.0]), wrng.choice([1.0, 0.5])])
                     sn.append(wrng.choice(["s", "t"]))
                     pn.append("p%04d" % p_)
+            wide_plate = P - 3
+            for _ in range(70):                                 # one plate wider than 64 wells
+                tn.append([wrng.choice(["a", "b", "c"]), wrng.choice(["a", "b", "control"])])
+                td.append([wrng.choice([1.0, 2.0]), wrng.choice([1.0, 0.5])])
+                sn.append(wrng.choice(["s", "t"]))
+                pn.append("p%04d" % wide_plate)
+            res.count("class.size.plate>64-wells")
             obsd = {p_: wrng.random() < 0.3 for p_ in range(P)}
+            obsd[wide_plate] = False
             raw = dict(ctrl="control", arity=2, tnames=tn, tdoses=td, snames=sn, pnames=pn, obs=[0.5] * len(pn),
                        mask=[obsd[int(x[1:])] for x in pn], tmap=None, smap=None)
             unobs = [p_ for p_ in range(P) if not obsd[p_]]
@@ -739,6 +921,7 @@ def run(ctx, res):
                     if len(lines) > 4000:
                         flush(ctx, res, lines, expect, meta)
         flush(ctx, res, lines, expect, meta)
+        cross_process(ctx, res, env, xp_cases)
         dbal_total(ctx, res)
     finally:
         env.close()
@@ -756,6 +939,10 @@ def dbal_total(ctx, res):
     rng = ctx.subrng("c06-dbal")
     for t in range(ctx.scale(4, 40, 12)):
         raw = c04.gen_base(rng, big=True)
+        for _ in range(30):
+            if t != 0 or len(set(p_ for p_, m_ in zip(raw["pnames"], raw["mask"]) if not m_)) >= 3:
+                break
+            raw = c04.gen_base(rng, big=True)       # the first screen has more unobserved plates than max_chunk
         scr = S.build(raw)
         model, _ = c04.train_arrays("combo", scr)
         th = c04.thetas_of(model, t, n=4)
@@ -769,6 +956,15 @@ def dbal_total(ctx, res):
                 for idx in range(n):
                     h = score_chunk(scorer=GaussianDBALScorer(max_chunk=2, max_triples=20), thetas=th, screen=scr, distance_matrix=dm,
                                     rng=np.random.default_rng(1), n_chunks=n, chunk_index=idx, batch_plate_ids=list(batch))
+                    # object reuse: ONE scorer object for every chunk size / batch / screen / thetas of the run gives the same holder
+                    hr = score_chunk(scorer=shared("dbal", lambda: GaussianDBALScorer(max_chunk=2, max_triples=20)), thetas=th, screen=scr,
+                                     distance_matrix=dm, rng=np.random.default_rng(1), n_chunks=n, chunk_index=idx, batch_plate_ids=list(batch))
+                    res.count("class.object-reuse.dbal-scorer")
+                    if len(h.plate_ids) > 2:
+                        res.count("class.size.plates>max_chunk")
+                    if holder_state(hr) != holder_state(h):
+                        res.fail("a reused GaussianDBALScorer object scores differently from a fresh one", {"kind": "dbal", "raw": raw, "batch": batch, "n": n, "idx": idx},
+                                 show_holder(hr), show_holder(h), signature="C06:scorer-reuse")
                     if int(h.current_index) != len(h.plate_ids):
                         res.fail("GaussianDBALScorer returned fewer scores than plates", {"kind": "dbal", "raw": raw, "batch": batch, "n": n, "idx": idx},
                                  int(h.current_index), len(h.plate_ids), signature="C06:dbal-total")
@@ -780,6 +976,70 @@ def dbal_total(ctx, res):
                     res.fail("GaussianDBALScorer: scored plates != candidates, each once", {"kind": "dbal", "raw": raw, "batch": batch, "n": n},
                              sorted(got), sorted(cands), signature="C06:dbal-total")
         res.count("dbal.screens")
+
+
+def trace_case(case):
+    """what the code does for one case, as plain data: plates + subsets handed to the scorer per chunk, holders, combined holder,
+    selections (no policy / filtering policy).  Run in this process and in a second interpreter with another PYTHONHASHSEED."""
+    from batchie.scoring.main import score_chunk, ChunkedScoresHolder, select_next_plate
+    Scorer, Policy = plugins()
+    scr = S.build(case["raw"])
+    batch = list(case["batch"])
+    Scorer.table = {int(k): dec_score(v) for k, v in case["table"].items()}
+    out = []
+    for n in case["ns"]:
+        hs = []
+        try:
+            for idx in range(n):
+                Scorer.log = []
+                h = score_chunk(scorer=Scorer(), thetas=None, screen=scr, distance_matrix=None, rng=np.random.default_rng(0),
+                                n_chunks=n, chunk_index=idx, batch_plate_ids=list(batch))
+                out.append(["inputs", n, idx, [[k, S.sel_tok(sel)] for k, sel, _ in Scorer.log[-1]], show_holder(h)])
+                hs.append(h)
+            comb = ChunkedScoresHolder.concat(hs)
+            out.append(["combined", n, show_holder(comb)])
+            for pol in ([None, case["allowed"]] if case["allowed"] is not None else [None]):
+                Policy.allowed = set(pol) if pol is not None else set()
+                sel = select_next_plate(scores=comb, screen=scr, policy=(Policy() if pol is not None else None), batch_plate_ids=list(batch),
+                                        rng=np.random.default_rng(0))
+                out.append(["select", n, pol, None if sel is None else int(sel.plate_id)])
+        except Exception as e:   # noqa: BLE001
+            out.append(["error", n, type(e).__name__])
+    Scorer.refs = []
+    return out
+
+
+def sub_main(path):
+    import json
+    quiet_logging()
+    with open(path) as f:
+        job = json.load(f)
+    with open(job["out"], "w") as f:
+        json.dump([trace_case(c) for c in job["cases"]], f)
+
+
+def cross_process(ctx, res, env, cases):
+    """class cross-process determinism: the same cases in a second interpreter process with a different PYTHONHASHSEED"""
+    import json
+    import subprocess
+    here = json.loads(json.dumps([trace_case(c) for c in cases]))
+    job = env.path("job") + ".json"
+    with open(job, "w") as f:
+        json.dump({"cases": cases, "out": job + ".out"}, f)
+    e = dict(os.environ, PYTHONHASHSEED="4242", BATCHIE_REPO=common.REPO)
+    code = "import sys; sys.path.insert(0, %r); from harness import c06; c06.sub_main(sys.argv[1])" % common.VERIF
+    p = subprocess.run([sys.executable, "-c", code, job], env=e, stdout=subprocess.PIPE, stderr=subprocess.STDOUT, text=True, timeout=600)
+    if not os.path.exists(job + ".out"):
+        raise RuntimeError("second process failed: " + p.stdout[-800:])
+    with open(job + ".out") as f:
+        there = json.load(f)
+    for c, a, b in zip(cases, here, there):
+        res.evaluations += 1
+        res.count("class.cross-process.other-hashseed")
+        if a != b:
+            d = next((i for i, (x, y) in enumerate(zip(a, b)) if x != y), min(len(a), len(b)))
+            res.fail("scoring / selection differs in a second interpreter process (other PYTHONHASHSEED)", dict(c, via="subprocess"),
+                     {"this_process": str(a[d:d + 1])[:400], "other_process": str(b[d:d + 1])[:400]}, "identical", signature="C06:cross-process")
 
 
 def flush(ctx, res, lines, expect, meta):
@@ -796,6 +1056,15 @@ def replay(ctx, case, res):
     quiet_logging()
     if case.get("kind") == "dbal":
         dbal_total(ctx, res)
+        return
+    if case.get("via") == "subprocess":
+        env = Env()
+        try:
+            c = dict(case)
+            c.pop("via")
+            cross_process(ctx, res, env, [c])
+        finally:
+            env.close()
         return
     env = Env()
     try:
